@@ -788,7 +788,23 @@ def ListMd (cfg : Block.Cfg) (gas : Nat) : Prop :=
 
 theorem list_md (cfg : Block.Cfg) (gas : Nat) (hT : TokMd cfg gas) (hL : ListMd cfg gas) : ListMd cfg (gas + 1) := by
   intro fw st ld nm acc r h hacc
+  have hstop : ∀ (items : List Item) (fwEnd : FW) (stEnd : St) (rr : List Item × FW × St), ItemsMd items →
+      (Res.ok ((match items with
+        | .mk inner loose i p l n g :: rest => Item.mk inner (decide (inner.length > 1) && loose) i p l n g :: rest
+        | [] => []).reverse, fwEnd, stEnd) : Res _) = .ok rr → ItemsMd rr.1 := by
+    intro items fwEnd stEnd rr hi he
+    cases he
+    cases items with
+    | nil => exact trivial
+    | cons x xs =>
+      cases x
+      simp only [ItemsMd, ItemMd] at hi
+      refine itemsMd_reverse _ ?_
+      simp only [ItemsMd, ItemMd]
+      exact hi
   simp only [readList] at h
+  split at h
+  · exact hstop acc _ _ r hacc h
   split at h
   · cases h
   · rename_i il hil
@@ -816,29 +832,13 @@ theorem list_md (cfg : Block.Cfg) (gas : Nat) (hT : TokMd cfg gas) (hL : ListMd 
     · cases h
     · rename_i item itemLeader next fw' st' hres
       have hkw := key item itemLeader next fw' st' hres
-      have hstop : ∀ (items : List Item) (fwEnd : FW) (rr : List Item × FW × St), ItemsMd items →
-          (Res.ok ((match items with
-            | .mk inner loose i p l n g :: rest => Item.mk inner (decide (inner.length > 1) && loose) i p l n g :: rest
-            | [] => []).reverse, fwEnd, st') : Res _) = .ok rr → ItemsMd rr.1 := by
-        intro items fwEnd rr hi he
-        cases he
-        cases items with
-        | nil => exact trivial
-        | cons x xs =>
-          cases x
-          simp only [ItemsMd, ItemMd] at hi
-          refine itemsMd_reverse _ ?_
-          simp only [ItemsMd, ItemMd]
-          exact hi
       have hacc' : ItemsMd (item :: acc) := ⟨hkw, hacc⟩
       split at h
       · split at h
-        · exact hstop acc _ r hacc h
-        · split at h
-          · exact hstop _ _ r hacc' h
-          · exact hL _ st' _ _ _ r h hacc'
+        · exact hstop _ _ _ r hacc' h
+        · exact hL _ st' _ _ _ r h hacc'
       · split at h
-        · exact hstop _ _ r hacc' h
+        · exact hstop _ _ _ r hacc' h
         · exact hL _ st' _ _ _ r h hacc'
 
 theorem try_md (cfg : Block.Cfg) (gas : Nat) (hT : TokMd cfg gas) (hL : ListMd cfg gas) (hY : TryMd cfg gas) : TryMd cfg (gas + 1) := by
